@@ -436,6 +436,17 @@ theorem e_all_apps_messages (s : Sys) :
   simp only [List.map, h, List.map_map]
   congr 1
 
+theorem e_names (s : Sys) (app : String) :
+    EntryAll "AppNamespace__get_nameplate_ids__select_nameplates_0" AppNamespace__get_nameplate_ids__select_nameplates_0
+      [.str app] s := by
+  refine ⟨by simp [GenSql.all, List.lookup], rfl, (s.db.namesOfApp app).map .name, by simp [stmtSem, namesStmt], ?_⟩
+  have h := (get_nameplate_ids_select s.db app).result
+  have hb : bindArgs AppNamespace__get_nameplate_ids__select_nameplates_0 [("self._app_id", .text app)] = [.text app] := by
+    simp [bindArgs, evalArg, AppNamespace__get_nameplate_ids__select_nameplates_0, List.lookup]
+  rw [hb] at h
+  simp only [List.map, SV.toCell, h, List.map_map]
+  congr 1
+
 /-! ### coverage -/
 
 /-- the statement names that have an entry theorem above -/
@@ -458,6 +469,6 @@ def tiedNames : List String := [
   "AppNamespace_log_client_version__insert_client_versions_0", "Mailbox_get_messages__select_messages_0",
   "Server_dump_stats__delete_current_0", "Server_dump_stats__insert_current_0",
   "Server_get_all_apps__select_nameplates_0", "Server_get_all_apps__select_mailboxes_0",
-  "Server_get_all_apps__select_messages_0"]
+  "Server_get_all_apps__select_messages_0", "AppNamespace__get_nameplate_ids__select_nameplates_0"]
 
 end Wormhole.Tie
